@@ -73,7 +73,9 @@ TERM_XN = ("pow", ("var", "x"), ("const", "n"))
 GROUP_ADD = ("add", ("var", "x"), ("var", "y"))
 GROUP_MUL = ("mul", ("var", "y"), ("var", "z"))
 NEG_Y = ("neg", ("var", "y"))
-OPERANDS_ALL = [ATOM_X, ATOM_Y, ATOM_K, TERM_KX, TERM_XN, GROUP_ADD, GROUP_MUL, NEG_Y]
+GROUP_DIV = ("div", ("var", "y"), ("const", "d"))
+GROUP_SUB = ("sub", ("var", "z"), ("var", "y"))
+OPERANDS_ALL = [ATOM_X, ATOM_Y, ATOM_K, TERM_KX, TERM_XN, GROUP_ADD, GROUP_MUL, NEG_Y, GROUP_DIV, GROUP_SUB]
 OPERANDS_SMALL = [ATOM_X, ATOM_K, TERM_KX, GROUP_ADD]
 
 # contexts: (label, wrapper, path of the embedded tree inside the wrapper)
